@@ -87,16 +87,16 @@ Proof.
   induction 1 as [|n s s1 s2 Hs Hr IH]; [lia|]. apply step_rank in Hs. lia.
 Qed.
 
-Lemma init7_rank p put rm fx : rank (init7 p put rm fx) <= FUEL.
+Lemma init_gen_rank p put rm fx : rank (init_gen p put rm fx) <= FUEL.
 Proof. destruct put; cbn; unfold FUEL; lia. Qed.
 Lemma init_rank p put rm : rank (init p put rm) <= FUEL.
-Proof. apply init7_rank. Qed.
+Proof. apply init_gen_rank. Qed.
 
-Lemma maximal_in_finals7 p put rm fx n s :
-  rrun n (init7 p put rm fx) s -> succs s = [] -> In s (finals FUEL (init7 p put rm fx)).
+Lemma maximal_in_finals_gen p put rm fx n s :
+  rrun n (init_gen p put rm fx) s -> succs s = [] -> In s (finals FUEL (init_gen p put rm fx)).
 Proof.
   intros Hr He. eapply finals_complete; [|exact Hr|exact He].
-  pose proof (run_bounded _ _ _ Hr). pose proof (init7_rank p put rm fx). lia.
+  pose proof (run_bounded _ _ _ Hr). pose proof (init_gen_rank p put rm fx). lia.
 Qed.
 
 Lemma runs_bounded p put rm n s : rrun n (init p put rm) s -> n <= FUEL.
@@ -123,10 +123,10 @@ Lemma sweep_touch : forallb (fun p => forallb (fun rm => forallb (fun s => contr
 Proof. vm_compute. reflexivity. Qed.
 
 Lemma sweep_put : forallb (fun p => forallb (fun rm => forallb (fun s => contract s && both_done s)
-                        (finals FUEL (init p true rm))) [false; true]) [PAbsent; POldGood; PFreshGood] = true.
+                        (finals FUEL (init p true rm))) [false; true]) all_priors = true.
 Proof. vm_compute. reflexivity. Qed.
 
-Lemma sweep_corrupt_done : forallb (fun rm => forallb both_done (finals FUEL (init POldCorrupt true rm))) [false; true] = true.
+Lemma sweep_corrupt_done_old : forallb (fun rm => forallb both_done (finals FUEL (init_old POldCorrupt true rm))) [false; true] = true.
 Proof. vm_compute. reflexivity. Qed.
 
 Lemma in_bools (b : bool) : In b [false; true].
@@ -145,16 +145,13 @@ Proof.
   specialize (H s Hin). apply andb_true_iff in H. exact H.
 Qed.
 
-(* Put || Trash when the pre-existing copy is absent, intact (old or fresh): same contract *)
-Theorem put_trash_race_partial p rm n s :
-  p <> POldCorrupt ->
+(* Put || Trash at full strength: EVERY interleaving, every prior copy (absent, intact, CORRUPT, fresh),
+   both trash modes — WriteBlock now takes the flock on the file it replaces *)
+Theorem put_trash_race p rm n s :
   rrun n (init p true rm) s -> succs s = [] -> contract s = true /\ both_done s = true.
 Proof.
-  intros Hp.
-  assert (Hin' : In p [PAbsent; POldGood; PFreshGood]).
-  { destruct p; [left; reflexivity|right; left; reflexivity|contradiction Hp; reflexivity|right; right; left; reflexivity]. }
   intros Hr He. pose proof (maximal_in_finals _ _ _ _ _ Hr He) as Hin.
-  pose proof sweep_put as H. rewrite forallb_forall in H. specialize (H p Hin').
+  pose proof sweep_put as H. rewrite forallb_forall in H. specialize (H p (in_priors p)).
   rewrite forallb_forall in H. specialize (H rm (in_bools rm)). rewrite forallb_forall in H.
   specialize (H s Hin). apply andb_true_iff in H. exact H.
 Qed.
@@ -175,23 +172,24 @@ Proof.
   destruct (i_cont i); [reflexivity|discriminate].
 Qed.
 
-(* F7: with a CORRUPT old copy in place WriteBlock (which takes no flock) can replace the file between
-   Trash's stat and Trash's rename: the PUT is acknowledged and the freshly written block ends up in
-   the trash (lifetime > 0) or is unlinked (lifetime = 0) *)
+(* ---- regression witness about the OLD model (code before /repo a9eb270, WriteBlock without flock):
+   F7 — with a CORRUPT old copy WriteBlock could replace the file between Trash's stat and Trash's
+   rename: the PUT was acknowledged and the freshly written block ended up in the trash (lifetime > 0)
+   or was unlinked (lifetime = 0) ---- *)
 Definition put_acked_but_gone (s : st) : bool :=
   a_ok s && match path s with None => true | Some _ => false end &&
   existsb (fun i => match get_inode s i with {| i_age := Fresh; i_cont := Good |} => true | _ => false end)
           (if remove s then gone s else trash s).
 
-Lemma f7_exists rm : existsb put_acked_but_gone (finals FUEL (init POldCorrupt true rm)) = true.
+Lemma f7_exists_old rm : existsb put_acked_but_gone (finals FUEL (init_old POldCorrupt true rm)) = true.
 Proof. destruct rm; vm_compute; reflexivity. Qed.
 
-Theorem put_trash_race_corrupt_refuted rm :
-  exists n s, rrun n (init POldCorrupt true rm) s /\ succs s = [] /\ contract s = false /\ put_acked_but_gone s = true.
+Theorem old_put_trash_race_corrupt_refuted rm :
+  exists n s, rrun n (init_old POldCorrupt true rm) s /\ succs s = [] /\ contract s = false /\ put_acked_but_gone s = true.
 Proof.
-  pose proof (f7_exists rm) as H. apply existsb_exists in H. destruct H as (s & Hin & Hg).
+  pose proof (f7_exists_old rm) as H. apply existsb_exists in H. destruct H as (s & Hin & Hg).
   destruct (finals_sound _ _ _ Hin) as [n Hr]. exists n, s. split; [exact Hr|].
-  pose proof sweep_corrupt_done as D. rewrite forallb_forall in D. specialize (D rm (in_bools rm)).
+  pose proof sweep_corrupt_done_old as D. rewrite forallb_forall in D. specialize (D rm (in_bools rm)).
   rewrite forallb_forall in D. specialize (D s Hin).
   assert (He : succs s = []) by (apply both_done_succs; exact D).
   split; [exact He|]. split; [|exact Hg].
@@ -199,32 +197,11 @@ Proof.
   destruct Hg as [Ha Hp]. unfold contract, at_path. rewrite Ha. destruct (path s); [discriminate|reflexivity].
 Qed.
 
-(* outside the F7 trigger the contract holds even with a corrupt old copy: in every final state that
-   violates it, Trash had seen the old file (stat) before WriteBlock's rename and acted after it —
-   stated on the schedules the harness executes *)
 Fixpoint exec (s : st) (sch : list tid) : option st :=
   match sch with
   | [] => Some s
   | t :: r => match step_t t s with Some s' => exec s' r | None => None end
   end.
-Fixpoint labels (s : st) (sch : list tid) : list (tid * string) :=
-  match sch with
-  | [] => []
-  | t :: r => (t, label_t t s) :: match step_t t s with Some s' => labels s' r | None => [] end
-  end.
-Definition f7_trigger (rm : bool) (l : list (tid * string)) : bool :=
-  match index_of TB "Trash:v.os.Stat" l 0,
-        index_of TA "WriteBlock:v.os.Rename" l 0,
-        index_of TB (if rm then "Trash:v.os.Remove" else "Trash:v.os.Rename") l 0 with
-  | Some a, Some b, Some d => Nat.ltb a b && Nat.ltb b d
-  | _, _, _ => false
-  end.
-Lemma sweep_corrupt_partial : forallb (fun rm => forallb (fun sch =>
-    match exec (init POldCorrupt true rm) sch with
-    | Some s => contract s || f7_trigger rm (labels (init POldCorrupt true rm) sch)
-    | None => false
-    end) (schedules FUEL (init POldCorrupt true rm))) [false; true] = true.
-Proof. vm_compute. reflexivity. Qed.
 
 (* completeness of the schedule enumeration that the harness follows *)
 Lemma schedules_complete fuel : forall s sch s',
@@ -254,39 +231,11 @@ Proof.
     + apply in_or_app. right. left; reflexivity.
 Qed.
 
-Theorem put_trash_race_corrupt_partial rm sch s :
-  exec (init POldCorrupt true rm) sch = Some s -> succs s = [] ->
-  f7_trigger rm (labels (init POldCorrupt true rm) sch) = false -> contract s = true.
-Proof.
-  intros He Hend Ht.
-  assert (Hin : In sch (schedules FUEL (init POldCorrupt true rm))).
-  { eapply schedules_complete; [|exact He|exact Hend].
-    pose proof (run_bounded _ _ _ (exec_run _ _ _ He)). pose proof (init_rank POldCorrupt true rm). lia. }
-  pose proof sweep_corrupt_partial as H. rewrite forallb_forall in H. specialize (H rm (in_bools rm)).
-  rewrite forallb_forall in H. specialize (H sch Hin). rewrite He, Ht, orb_false_r in H. exact H.
-Qed.
-
 (* the hypotheses are satisfiable: a concrete maximal schedule of Touch || Trash where Touch wins *)
 Example ex_touch_first :
   exists s, exec (init POldGood false false) [TA; TA; TA; TA; TA; TB; TB; TB; TB; TB] = Some s /\ succs s = [] /\
             a_ok s = true /\ contract s = true.
 Proof. eexists. split; [vm_compute; reflexivity|]. repeat split; vm_compute; reflexivity. Qed.
-
-(* ---- the repair of fixes/F7.diff closes F7: with WriteBlock taking the flock on the file it replaces,
-   EVERY interleaving of PUT || Trash keeps the contract, for every prior state (corrupt included) and
-   both trash modes, and nobody deadlocks ---- *)
-Lemma sweep_put_fixed : forallb (fun p => forallb (fun rm => forallb (fun s => contract s && both_done s)
-                        (finals FUEL (init7 p true rm true))) [false; true]) all_priors = true.
-Proof. vm_compute. reflexivity. Qed.
-
-Theorem put_trash_race_fixed p rm n s :
-  rrun n (init7 p true rm true) s -> succs s = [] -> contract s = true /\ both_done s = true.
-Proof.
-  intros Hr He. pose proof (maximal_in_finals7 _ _ _ _ _ _ Hr He) as Hin.
-  pose proof sweep_put_fixed as H. rewrite forallb_forall in H. specialize (H p (in_priors p)).
-  rewrite forallb_forall in H. specialize (H rm (in_bools rm)). rewrite forallb_forall in H.
-  specialize (H s Hin). apply andb_true_iff in H. exact H.
-Qed.
 
 (* ---- the interleaving-level boolean specification reflects its Prop form ---- *)
 Definition SpecI (c : case) : Prop :=
